@@ -309,5 +309,120 @@ theorem step_spec (hO : OracleSpec A obj o) {mx : Mixin} {strat : Strat} {extra 
           have := hfb f hf
           exact ⟨_, hfar', by omega⟩
 
+/-- what the loop delivers when it stops -/
+def LoopPost (A : M → Prop) (obj : Nat → M → Int) (g : Goal) (gi : Nat) (base ex : List Constraint)
+    (marks0 : List Nat) (bad0 : Bool) (r : Outcome M × Solver M) : Prop :=
+  r.1 = .fuel ∨
+  ∃ b, r.1 = .done b ∧ Feas A obj base ex b ∧ (∀ m, Feas A obj base ex m → sg g (obj gi b) ≤ sg g (obj gi m)) ∧
+    ∃ t, SInv A obj g gi base ex marks0 bad0 t r.2
+
+/-- partial correctness of the loop, for every oracle and every amount of fuel -/
+theorem loop_correct (hO : OracleSpec A obj o) {mx : Mixin} {strat : Strat} {extra : List Constraint}
+    (hex : ex = effExtra mx extra) (hDom : ∀ m, A m → castOk g.dom (obj gi m) = true) :
+    ∀ (n : Nat) (iv : Interval) (best : M) (s : Solver M),
+      LInv A obj g gi base ex marks0 bad0 strat iv best s →
+      LoopPost A obj g gi base ex marks0 bad0 (searchLoop o obj mx strat g gi extra n iv best s) := by
+  intro n
+  induction n with
+  | zero => intro iv best s _; exact Or.inl rfl
+  | succ n ih =>
+    intro iv best s hI
+    cases he : iv.empty with
+    | true =>
+      right
+      obtain ⟨nn, f, hn, hf, hle⟩ := (empty_iff g iv).1 he
+      rw [hI.nearEq] at hn; cases hn
+      refine ⟨best, by rw [searchLoop]; simp [he], hI.feas, ?_, _, by rw [searchLoop]; simp only [he]; exact hI.sinv⟩
+      intro m hm
+      have := hI.farBound f hf m hm
+      omega
+    | false =>
+      obtain ⟨iv', best', s', heq, hI', _⟩ := step_spec hO hex hDom hI he
+      rw [heq n]
+      exact ih iv' best' s' hI'
+
+/-- phase 2 of the termination argument: both bounds known -/
+theorem loop_terminates_bounded (hO : OracleSpec A obj o) {mx : Mixin} {strat : Strat} {extra : List Constraint}
+    (hex : ex = effExtra mx extra) (hDom : ∀ m, A m → castOk g.dom (obj gi m) = true) :
+    ∀ (k : Nat) (iv : Interval) (best : M) (s : Solver M) (nn f : Int),
+      LInv A obj g gi base ex marks0 bad0 strat iv best s →
+      near g iv = some nn → far g iv = some f → sg g nn - sg g f ≤ (k : Int) →
+      ∀ n, n ≥ k + 1 → (searchLoop o obj mx strat g gi extra n iv best s).1 ≠ .fuel := by
+  intro k
+  induction k with
+  | zero =>
+    intro iv best s nn f hI hn hf hk n hge
+    have he : iv.empty = true := (empty_iff g iv).2 ⟨nn, f, hn, hf, by omega⟩
+    obtain ⟨n', rfl⟩ : ∃ n', n = n' + 1 := ⟨n - 1, by omega⟩
+    rw [searchLoop]; simp [he]
+  | succ k ih =>
+    intro iv best s nn f hI hn hf hk n hge
+    obtain ⟨n', rfl⟩ : ∃ n', n = n' + 1 := ⟨n - 1, by omega⟩
+    cases he : iv.empty with
+    | true => rw [searchLoop]; simp [he]
+    | false =>
+      obtain ⟨iv', best', s', heq, hI', n1, n2, hp1, hp2, _, hp4⟩ := step_spec hO hex hDom hI he
+      rw [hf] at hp4
+      obtain ⟨f', hf', hlt⟩ := hp4
+      rw [hn] at hp1; cases hp1
+      rw [heq n']
+      exact ih iv' best' s' n2 f' hI' hp2 hf' (by omega) n' (by omega)
+
+/-- termination: if the optimum is attained the loop stops, whatever the oracle answers -/
+theorem loop_terminates (hO : OracleSpec A obj o) {mx : Mixin} {strat : Strat} {extra : List Constraint}
+    (hex : ex = effExtra mx extra) (hDom : ∀ m, A m → castOk g.dom (obj gi m) = true)
+    (mo : M) (hmo : ∀ m, Feas A obj base ex m → sg g (obj gi mo) ≤ sg g (obj gi m)) :
+    ∀ (k : Nat) (iv : Interval) (best : M) (s : Solver M),
+      LInv A obj g gi base ex marks0 bad0 strat iv best s →
+      sg g (obj gi best) - sg g (obj gi mo) ≤ (k : Int) →
+      ∃ N, ∀ n, n ≥ N → (searchLoop o obj mx strat g gi extra n iv best s).1 ≠ .fuel := by
+  intro k
+  induction k with
+  | zero =>
+    intro iv best s hI hk
+    cases hfar : far g iv with
+    | some f =>
+      exact ⟨_, loop_terminates_bounded hO hex hDom (sg g (obj gi best) - sg g f).toNat iv best s _ f hI hI.nearEq hfar
+        (by omega)⟩
+    | none =>
+      have he := empty_false_of_far_none g iv hfar
+      obtain ⟨iv', best', s', heq, hI', n1, n2, hp1, hp2, hp3, hp4⟩ := step_spec hO hex hDom hI he
+      rw [hfar] at hp4
+      rw [hI.nearEq] at hp1; cases hp1
+      rw [hI'.nearEq] at hp2; cases hp2
+      rcases hp4 with ⟨_, hlt⟩ | ⟨f', hf'⟩
+      · have := hmo best' hI'.feas; omega
+      · refine ⟨(sg g (obj gi best') - sg g f').toNat + 1 + 1, ?_⟩
+        intro n hge
+        obtain ⟨n', rfl⟩ : ∃ n', n = n' + 1 := ⟨n - 1, by omega⟩
+        rw [heq n']
+        exact loop_terminates_bounded hO hex hDom (sg g (obj gi best') - sg g f').toNat iv' best' s' _ f' hI' hI'.nearEq hf'
+          (by omega) n' (by omega)
+  | succ k ih =>
+    intro iv best s hI hk
+    cases hfar : far g iv with
+    | some f =>
+      exact ⟨_, loop_terminates_bounded hO hex hDom (sg g (obj gi best) - sg g f).toNat iv best s _ f hI hI.nearEq hfar
+        (by omega)⟩
+    | none =>
+      have he := empty_false_of_far_none g iv hfar
+      obtain ⟨iv', best', s', heq, hI', n1, n2, hp1, hp2, hp3, hp4⟩ := step_spec hO hex hDom hI he
+      rw [hfar] at hp4
+      rw [hI.nearEq] at hp1; cases hp1
+      rw [hI'.nearEq] at hp2; cases hp2
+      rcases hp4 with ⟨_, hlt⟩ | ⟨f', hf'⟩
+      · obtain ⟨N, hN⟩ := ih iv' best' s' hI' (by omega)
+        refine ⟨N + 1, ?_⟩
+        intro n hge
+        obtain ⟨n', rfl⟩ : ∃ n', n = n' + 1 := ⟨n - 1, by omega⟩
+        rw [heq n']
+        exact hN n' (by omega)
+      · refine ⟨(sg g (obj gi best') - sg g f').toNat + 1 + 1, ?_⟩
+        intro n hge
+        obtain ⟨n', rfl⟩ : ∃ n', n = n' + 1 := ⟨n - 1, by omega⟩
+        rw [heq n']
+        exact loop_terminates_bounded hO hex hDom (sg g (obj gi best') - sg g f').toNat iv' best' s' _ f' hI' hI'.nearEq hf'
+          (by omega) n' (by omega)
+
 end
 end PySMT.Opt
